@@ -498,10 +498,16 @@ class Facts:
         for b in self.by_root.get(root, []):
             if b.path != body.path and b.path.startswith(body.path + "::"):
                 out.append(b)
-        for hp in body.raw.get("inlined", []):
-            for b in self.body_list:
-                if b.path.startswith(hp + "::{closure") and b not in out:
-                    out.append(b)
+        # closures defined in helpers that were virtually inlined into this body or into one of its closures
+        k = 0
+        hosts = [body] + list(out)
+        while k < len(hosts):
+            for hp in hosts[k].raw.get("inlined", []):
+                for b in self.body_list:
+                    if b.path.startswith(hp + "::{closure") and b not in out:
+                        out.append(b)
+                        hosts.append(b)
+            k += 1
         return out
 
     def callers(self):
